@@ -79,6 +79,10 @@ CLAIMED = {
          "110 theorems; every operator the constant folder implements is covered end to end; nine recorded deviations (Eq/Ne/LogicAnd with X, Pow corners, out-of-range select, wide assign) keyed by verified signature with replayed witnesses.",
          "Trusted: Lean kernel; num-bigint = Nat/Int arithmetic; my transcription of IEEE 1800-2017 §11.4 (Ref), cross-checked against 550 unit-test vectors of value.rs.",
          "DESIGN.md §4 C17"),
+ "C07": ("proof", "Lean 4 proof over a table-state model of the language server (drop_file removes by file tag; every non-leaky table is a function of the final buffers for every notification history) with the table list and drop set REGENERATED from the analyzer/parser sources (`tables_classified` by decide: a new thread_local table or a table removed from drop_file breaks it); negated statement for leaky tables with witnesses + oracle: real veryl-ls driven over stdio through generated notification histories vs a fresh server on the final buffers",
+         "28 of 44 global tables are proved state-free of history under their recorded class; 16 leaky tables: 4 observable (recorded findings with replayed histories), 12 argued unobservable; per-table classes are assumptions with reason strings.",
+         "Trusted: Lean kernel; tools/gen.py table extraction; tools/lsp_client.py; the class assigned to each table.",
+         "DESIGN.md §4 C07"),
  "C30": ("proof", "Lean 4 proofs over an interleaving semantics of filesystem steps (lock-bracketed commands serialise; atomically replaced files are only ever read absent/complete; try_open never blocks; dependency checkout safe) with negated statements and schedules for the std-expansion and resolve races + correspondence by trace inclusion (strace of real veryl/veryl-ls runs abstracted to model events and accepted by vmodel fs; negative controls) + concurrent-run oracle vs serial twin and clean build",
          "All interleavings of the modelled step programs; flock/rename atomicity and whole-file reads are trusted OS behaviour; two recorded races keyed by verified signature.",
          "Trusted: Lean kernel; strace and the path classifier in tools/strace_fs.py; OS flock/rename semantics.",
